@@ -1,4 +1,4 @@
-import SciVerif.Lemmas.C01e
+import SciVerif.Lemmas.C01p
 
 /-!
 # C01 — Expression solver evaluates by the documented step table
@@ -26,38 +26,14 @@ theorem C01_step_order_documented : dfltSteps = docSteps := by decide
     Universally over the atom algebra, under the one law the sign folding uses. -/
 theorem C01_tokens_eq_eval (alg : AtomAlg A) (lit : List Char → A) (hn : NegNeg alg)
     (e : E) (hwf : e.WF) :
-    solveToks dflt alg dfltSteps (toks dflt alg lit e) = .ok (.atom (eval alg lit e)) := by
-  have p0 := pass_of_steps alg lit P0 .args 0 e (args_pass alg lit e [] [])
-  have p1 := pass_of_steps alg lit P1 .unary 1 e (sign_pass alg lit hn e hwf [] [] (fun _ => trivial))
-  have p2 := pass_of_steps alg lit [10] .binary 2 e (binary_pass alg lit [10] 2 binPass2 e hwf [] [])
-  have p3 := pass_of_steps alg lit [11, 12] .binary 3 e (binary_pass alg lit _ 3 binPass3 e hwf [] [])
-  have p4 := pass_of_steps alg lit [13, 14] .binary 4 e (binary_pass alg lit _ 4 binPass4 e hwf [] [])
-  have p5 := pass_of_steps alg lit [15, 16, 18, 19, 20, 21] .binary 5 e
-    (binary_pass alg lit _ 5 binPass5 e hwf [] [])
-  have p6 := pass_of_steps alg lit [17] .unary 6 e (not_pass alg lit e hwf [] [])
-  have p7 := pass_of_steps alg lit [22] .binary 7 e (binary_pass alg lit _ 7 binPass7 e hwf [] [])
-  have p8 := pass_of_steps alg lit [23] .binary 8 e (binary_pass alg lit _ 8 binPass8 e hwf [] [])
-  unfold solveToks
-  rw [runSteps_resolved, resolve_steps, ← flat_zero]
-  simp only [runResolved, List.isEmpty_cons, Bool.false_eq_true, if_false, P0, P1] at *
-  rw [p0]; simp only []
-  rw [p1]; simp only []
-  rw [p2]; simp only []
-  rw [p3]; simp only []
-  rw [p4]; simp only []
-  rw [p5]; simp only []
-  rw [p6]; simp only []
-  rw [p7]; simp only []
-  rw [p8]; simp only []
-  rw [flat_nine]
-  rfl
+    solveToks dflt alg dfltSteps (toks dflt alg lit e) = .ok (.atom (eval alg lit e)) :=
+  tokens_eq_eval alg lit hn e hwf
 
 /-- (D, token level) **A binary operator without its right operand is rejected.** For every
     well-formed `e` and every binary-only operator `o` (`** * / == != <= >= < > && ||`), the token
     list of `e` followed by `o` makes the step loop raise: all passes before `o`'s own leave `o`
-    in place, `o`'s pass finds no right operand.  (`+`/`-` are excluded here because a trailing
-    sign is first rewritten by the sign pass; that case, a missing LEFT operand, unbalanced
-    parentheses and wrong arity are checked by correspondence on every run.) -/
+    in place, `o`'s pass finds no right operand.  (`+`/`-`: see `C01_reject_trailing_sign`;
+    left operand: `C01_reject_missing_left_operand`.) -/
 theorem C01_reject_missing_operand (alg : AtomAlg A) (lit : List Char → A) (hn : NegNeg alg)
     (e : E) (hwf : e.WF) (o : B2) (ho : o.level ≠ 4) :
     solveToks dflt alg dfltSteps (toks dflt alg lit e ++ [tokB o]) = .error "operand" := by
@@ -93,29 +69,190 @@ theorem C01_reject_missing_operand (alg : AtomAlg A) (lit : List Char → A) (hn
       | (obtain ⟨b, hb⟩ := q8.2 (by decide) trivial; rw [hb])
       | skip
 
-/-- The proved part of the full statement below, under its conventional name: milestone (A),
-    the token level (identical to `C01_tokens_eq_eval`). -/
-theorem C01_solve_eq_eval_partial (alg : AtomAlg A) (lit : List Char → A) (hn : NegNeg alg)
-    (e : E) (hwf : e.WF) :
-    solveToks dflt alg dfltSteps (toks dflt alg lit e) = .ok (.atom (eval alg lit e)) :=
-  C01_tokens_eq_eval alg lit hn e hwf
+/-- (D, string level) **Unbalanced parentheses are rejected.** For EVERY string whose parenthesis
+    depth goes negative or does not return to 0 -- not only edits of rendered expressions --
+    `solve` raises, for every atom class that refuses texts containing a parenthesis (as
+    `float()` does).  Proved as: whatever the tokeniser loop accepts is balanced (the argument
+    scanner only closes at depth 1; a `(` is always taken by an operator; a `)` outside a call
+    ends up in an atom text). -/
+theorem C01_reject_unbalanced (alg : AtomAlg A) (hpf : ParenFree alg) (s : List Char)
+    (hs : ¬ Balanced s) : ∃ m, solve dflt alg dfltSteps s = .error m := by
+  cases h : solve dflt alg dfltSteps s with
+  | error m => exact ⟨m, rfl⟩
+  | ok t => exact absurd (solve_ok_balanced alg hpf s t h) hs
 
-/-- The FULL statement (character level), NOT proved: for every well-formed expression whose
-    literals the atom class reads, and every blank oracle, `solve` on the rendered text returns
-    `eval e`.  Missing is milestone (B): `tokenize (render bl e) = toks e` (first-match-in-table-
-    order tokenizer on rendered text, argument scanner with depth counting), which needs prefix
-    facts about the symbol table.  Every generated instance of (B) is evaluated by the driver on
-    every run (`tokenized` vs `toks`), and the whole statement is correspondence-checked. -/
+/-- (D, string level) **A call with the wrong number of arguments is rejected.** A call form of
+    the language applied to `k ≠ narg` top-level arguments -- any texts that are balanced and have
+    no separator of their own at depth 0, in particular all rendered expressions --, after any
+    blanks and followed by anything, makes `solve` raise "Wrong number of arguments" before any
+    argument is evaluated. -/
+theorem C01_reject_arity (alg : AtomAlg A) (c : Call) (Ts : List (List Char)) (hne : Ts ≠ [])
+    (hb : ∀ T ∈ Ts, nest T 0 = some 0) (hk : Ts.length ≠ c.narg) (j : Nat) (rest : List Char) :
+    solve dflt alg dfltSteps (blanks j ++ c.sym ++ joinArgs Ts ++ ')' :: rest) = .error "arity" :=
+  solve_arity alg c Ts hne hb hk j rest
+
+/-- (D, token level) **A binary operator without its left operand is rejected**: a binary-only
+    operator in front of the tokens of a well-formed expression. -/
+theorem C01_reject_missing_left_operand (alg : AtomAlg A) (lit : List Char → A) (hn : NegNeg alg)
+    (e : E) (hwf : e.WF) (o : B2) (ho : o.level ≠ 4) :
+    solveToks dflt alg dfltSteps (tokB o :: toks dflt alg lit e) = .error "operand" := by
+  have q0 := leading alg lit P0 .args 0 e o (args_pass alg lit e [tokB o] [])
+  have q1 := leading alg lit P1 .unary 1 e o (sign_pass alg lit hn e hwf [tokB o] [] (fun _ => trivial))
+  have q2 := leading alg lit [10] .binary 2 e o (binary_pass alg lit [10] 2 binPass2 e hwf [tokB o] [])
+  have q3 := leading alg lit [11, 12] .binary 3 e o (binary_pass alg lit _ 3 binPass3 e hwf [tokB o] [])
+  have q4 := leading alg lit [13, 14] .binary 4 e o (binary_pass alg lit _ 4 binPass4 e hwf [tokB o] [])
+  have q5 := leading alg lit [15, 16, 18, 19, 20, 21] .binary 5 e o
+    (binary_pass alg lit _ 5 binPass5 e hwf [tokB o] [])
+  have q6 := leading alg lit [17] .unary 6 e o (not_pass alg lit e hwf [tokB o] [])
+  have q7 := leading alg lit [22] .binary 7 e o (binary_pass alg lit _ 7 binPass7 e hwf [tokB o] [])
+  have q8 := leading alg lit [23] .binary 8 e o (binary_pass alg lit _ 8 binPass8 e hwf [tokB o] [])
+  unfold solveToks
+  rw [runSteps_resolved, resolve_steps, ← flat_zero]
+  simp only [runResolved, List.isEmpty_cons, Bool.false_eq_true, if_false, P0, P1] at *
+  cases o <;> first | (exact absurd rfl ho) | skip
+  all_goals
+    iterate 9
+      first
+      | (rw [q0.1 (by decide)]; simp only [])
+      | (rw [q1.1 (by decide)]; simp only [])
+      | (rw [q2.1 (by decide)]; simp only [])
+      | (rw [q3.1 (by decide)]; simp only [])
+      | (rw [q4.1 (by decide)]; simp only [])
+      | (rw [q5.1 (by decide)]; simp only [])
+      | (rw [q6.1 (by decide)]; simp only [])
+      | (rw [q7.1 (by decide)]; simp only [])
+      | (obtain ⟨b, hb⟩ := q2.2 (by decide) trivial; rw [hb])
+      | (obtain ⟨b, hb⟩ := q3.2 (by decide) trivial; rw [hb])
+      | (obtain ⟨b, hb⟩ := q5.2 (by decide) trivial; rw [hb])
+      | (obtain ⟨b, hb⟩ := q7.2 (by decide) trivial; rw [hb])
+      | (obtain ⟨b, hb⟩ := q8.2 (by decide) trivial; rw [hb])
+      | skip
+
+/-- (D, token level) **A trailing `+` or `-` is rejected**: the sign pass finds an atom on its left
+    and nothing on its right, keeps the operator and stores the `None` it fetched; the additive pass
+    then applies the operator to that `None`. -/
+theorem C01_reject_trailing_sign (alg : AtomAlg A) (lit : List Char → A) (hn : NegNeg alg)
+    (e : E) (hwf : e.WF) (s : Bool) :
+    solveToks dflt alg dfltSteps (toks dflt alg lit e ++ [tokS s]) = .error "operand" := by
+  have hsk := skipped_sign (A := A) s
+  have p0 := pass_framed alg lit P0 .args 0 e [] [tokS s] (fun t ht => by cases ht)
+    (fun t ht => by simp only [List.mem_singleton] at ht; subst ht; exact hsk.1)
+    (by simpa using args_pass alg lit e [] [tokS s])
+  have p1 := sign_pass_trailing alg lit hn e hwf s
+  have p2 := pass_framed alg lit [10] .binary 2 e [] [tokS s, .none] (fun t ht => by cases ht)
+    (fun t ht => by
+      simp only [List.mem_cons, List.mem_nil_iff, or_false] at ht
+      rcases ht with rfl | rfl
+      · exact hsk.2.1
+      · trivial)
+    (by simpa using binary_pass alg lit [10] 2 binPass2 e hwf [] [tokS s, .none])
+  have p3 := pass_framed alg lit [11, 12] .binary 3 e [] [tokS s, .none] (fun t ht => by cases ht)
+    (fun t ht => by
+      simp only [List.mem_cons, List.mem_nil_iff, or_false] at ht
+      rcases ht with rfl | rfl
+      · exact hsk.2.2
+      · trivial)
+    (by simpa using binary_pass alg lit [11, 12] 3 binPass3 e hwf [] [tokS s, .none])
+  obtain ⟨c, hc, st⟩ := binary_pass alg lit [13, 14] 4 binPass4 e hwf [] [tokS s, .none]
+  obtain ⟨pre, v, hl⟩ := flat_last alg lit 5 (by omega) e
+  have p4 : operate dflt alg [13, 14] .binary ⟨[], flat alg lit 4 e ++ [tokS s, .none]⟩
+      = .error (⟨pre.reverse, []⟩, "operand") := by
+    rw [hl] at st
+    exact operate_error_after alg [13, 14] .binary _ _ _ _ c _ (by simp; omega) (by simpa using st)
+      (step_sign_binary_none alg s pre.reverse [] v)
+  unfold solveToks
+  rw [runSteps_resolved, resolve_steps, ← flat_zero]
+  simp only [runResolved, List.isEmpty_cons, Bool.false_eq_true, if_false, P0, P1, List.nil_append] at *
+  rw [p0]; simp only []
+  rw [p1]; simp only []
+  rw [p2]; simp only []
+  rw [p3]; simp only []
+  rw [p4]
+
+/-! The three missing-operand rejections at STRING level: the text of a well-formed expression
+    with an operator symbol before or after it, blanks anywhere. -/
+
+theorem C01_reject_missing_right_operand_text (alg : AtomAlg A) (lit : List Char → A)
+    (hn : NegNeg alg) (e : E) (hwf : e.WF) (hl : LitOK alg lit e) (o : B2) (ho : o.level ≠ 4)
+    (u : List Char) (k : Nat) (hu : Pre (lexemes e ++ [o.sym]) u) :
+    solve dflt alg dfltSteps (u ++ blanks k) = .error "operand" :=
+  solve_framed_err alg lit hn e hwf hl [] [.opr (.bin o)] (fun _ h => by cases h)
+    (fun it h => by simp only [List.mem_singleton] at h; subst h; rfl)
+    (adj_post_opr alg lit e hl _) u k
+    (by simpa [lexemes_items, itemLex, OprK.sym] using hu) "operand"
+    (C01_reject_missing_operand alg lit hn e hwf o ho)
+
+theorem C01_reject_trailing_sign_text (alg : AtomAlg A) (lit : List Char → A)
+    (hn : NegNeg alg) (e : E) (hwf : e.WF) (hl : LitOK alg lit e) (s : Bool)
+    (u : List Char) (k : Nat) (hu : Pre (lexemes e ++ [if s then ['-'] else ['+']]) u) :
+    solve dflt alg dfltSteps (u ++ blanks k) = .error "operand" :=
+  solve_framed_err alg lit hn e hwf hl [] [.opr (.sign s)] (fun _ h => by cases h)
+    (fun it h => by simp only [List.mem_singleton] at h; subst h; rfl)
+    (adj_post_opr alg lit e hl _) u k
+    (by simpa [lexemes_items, itemLex, OprK.sym] using hu) "operand"
+    (C01_reject_trailing_sign alg lit hn e hwf s)
+
+theorem C01_reject_missing_left_operand_text (alg : AtomAlg A) (lit : List Char → A)
+    (hn : NegNeg alg) (e : E) (hwf : e.WF) (hl : LitOK alg lit e) (o : B2) (ho : o.level ≠ 4)
+    (u : List Char) (k : Nat) (hu : Pre (o.sym :: lexemes e) u) :
+    solve dflt alg dfltSteps (u ++ blanks k) = .error "operand" := by
+  obtain ⟨it, r, e1, h1⟩ := items_head alg lit e hl
+  have hadj : Adj ([.opr (.bin o)] ++ items e ++ []) := by
+    have := Adj.cons (a := .opr (.bin o)) (fun b hb => by
+      rw [e1] at hb; simp at hb; subst hb; exact okNext_opr _ _ h1) (adj_items alg lit e hl)
+    simpa using this
+  exact solve_framed_err alg lit hn e hwf hl [.opr (.bin o)] []
+    (fun it h => by simp only [List.mem_singleton] at h; subst h; rfl) (fun _ h => by cases h)
+    hadj u k (by simpa [lexemes_items, itemLex, OprK.sym] using hu) "operand"
+    (by simpa [tokOf, tokB, OprK.name] using C01_reject_missing_left_operand alg lit hn e hwf o ho)
+
+/-- The full statement (character level): for every well-formed expression whose literals the
+    atom class reads, and every blank oracle, `solve` on the rendered text returns `eval e`. -/
 def C01_solve_eq_eval_statement : Prop :=
   ∀ (A : Type) (alg : AtomAlg A) (lit : List Char → A), NegNeg alg →
     ∀ e : E, e.WF → LitOK alg lit e → ∀ bl : List Nat,
       solve dflt alg dfltSteps (render bl e) = .ok (.atom (eval alg lit e))
 
-/-- Blank invariance is a corollary of the full statement (same status). -/
-def C01_blank_invariance_statement : Prop :=
-  ∀ (A : Type) (alg : AtomAlg A) (lit : List Char → A), NegNeg alg →
-    ∀ e : E, e.WF → LitOK alg lit e → ∀ bl bl' : List Nat,
-      solve dflt alg dfltSteps (render bl e) = solve dflt alg dfltSteps (render bl' e)
+/-- (B) **Character level: the tokeniser.** For every well-formed `e` and every blank oracle the
+    tokeniser loop of `solve` (first operator in table order whose symbol prefixes the rest, atom
+    text in between, argument scanner with depth counting, a nested solver per argument) turns
+    the rendered text into exactly the token list `toks e`.  Rests on the kernel-decided facts
+    of `Facts/C01Sym.lean` about the regenerated operator table. -/
+theorem C01_tokenize_eq_toks (alg : AtomAlg A) (lit : List Char → A) (hn : NegNeg alg)
+    (e : E) (hwf : e.WF) (hl : LitOK alg lit e) (bl : List Nat) :
+    tokenize dflt alg dfltSteps (render bl e) = .ok (toks dflt alg lit e) := by
+  obtain ⟨u, k, hr, hu⟩ := joinBlanks_pre (lexemes e) bl
+  unfold render
+  rw [hr]
+  exact tokenize_text alg lit hn e hwf hl u k hu
+
+/-- (A)+(B) **The property, first clause.** For every well-formed expression of the stratified
+    grammar over the default operator set -- every nesting depth and length --, every atom class
+    that reads its literals, and every placement of blanks, `solve` returns the value obtained
+    by the documented order.  Unbounded; universally over the atom algebra under
+    `neg (neg a) = a`. -/
+theorem C01_solve_eq_eval (alg : AtomAlg A) (lit : List Char → A) (hn : NegNeg alg)
+    (e : E) (hwf : e.WF) (hl : LitOK alg lit e) (bl : List Nat) :
+    solve dflt alg dfltSteps (render bl e) = .ok (.atom (eval alg lit e)) := by
+  obtain ⟨u, k, hr, hu⟩ := joinBlanks_pre (lexemes e) bl
+  unfold render
+  rw [hr]
+  exact solve_text alg lit hn e hwf hl u k hu
+
+/-- the statement kept visible since the first phase is now a theorem -/
+theorem C01_solve_eq_eval_full : C01_solve_eq_eval_statement :=
+  fun _ alg lit hn e hwf hl bl => C01_solve_eq_eval alg lit hn e hwf hl bl
+
+/-- **Optional blanks around operators do not change the result.** -/
+theorem C01_blank_invariance (alg : AtomAlg A) (lit : List Char → A) (hn : NegNeg alg)
+    (e : E) (hwf : e.WF) (hl : LitOK alg lit e) (bl bl' : List Nat) :
+    solve dflt alg dfltSteps (render bl e) = solve dflt alg dfltSteps (render bl' e) := by
+  rw [C01_solve_eq_eval alg lit hn e hwf hl bl, C01_solve_eq_eval alg lit hn e hwf hl bl']
+
+/-- The literals admitted by `LitOK` include every number literal of the grammar
+    (`digits[.digits*][e digits]`, `.digits[e digits]`). -/
+theorem C01_grammar_literals (t : List Char) (h : isGrammarLit t = true) : litSafe t = true :=
+  grammarLit_safe t h
 
 /-! ### Non-vacuity: the hypotheses have concrete, non-trivial instances -/
 
@@ -145,7 +282,39 @@ example : solveToks dflt intAlg dfltSteps
 
 example : B2.mul.level ≠ 4 := by decide
 
+/-- an atom class over digit strings: refuses every text with a parenthesis -/
+def digAlg : AtomAlg Nat :=
+  { parse := fun s => if s.all isDigit && !s.isEmpty then some s.length else none, constE := 3,
+    un := fun _ a => a, bin := fun _ a b => a + b }
+
+example : ParenFree digAlg := by
+  intro t ht
+  obtain ⟨c, hc, hp⟩ := List.any_eq_true.mp ht
+  have hd : isDigit c = false := by
+    simp only [isParen, Bool.or_eq_true, beq_iff_eq] at hp
+    rcases hp with rfl | rfl <;> decide
+  have : t.all isDigit = false := by
+    cases h : t.all isDigit with
+    | false => rfl
+    | true => rw [List.all_eq_true.mp h c hc] at hd; cases hd
+  show (if (t.all isDigit && !t.isEmpty) = true then some t.length else none) = none
+  rw [this]; rfl
+
+/-- a text of `1 *` (hypothesis of the string-level operand rejections): `1 *` with one blank -/
+example : Pre (lexemes (.num ['1']) ++ [B2.mul.sym]) ['1', ' ', '*'] := by
+  simpa [blanks, lexemes, B2.sym] using Pre.cons 0 ['1'] (Pre.cons 1 ['*'] Pre.nil)
+
+example : ¬ Balanced ['(', '1'] := by unfold Balanced; decide
+example : ¬ Balanced ['1', ')', '('] := by unfold Balanced; decide
+example : ∀ T ∈ [['1'], ['2', '+', '(', '3', ')']], nest T 0 = some 0 := by decide
+example : [['1'], ['2']].length ≠ (Call.f1 .sin).narg := by decide
+
 example : LitOK termAlg Term.num ex1 := by
   simp [ex1, LitOK]; decide
+
+/-- rendered with blanks: ` 1-  -2**2` -/
+example : render [1, 0, 2] ex1 = [' ', '1', '-', ' ', ' ', '-', '2', '*', '*', '2'] := by decide
+
+example : isGrammarLit ['1', '2', '.', '5', 'e', '3'] = true := by decide
 
 end SciVerif.C01
